@@ -28,7 +28,11 @@ RULE = ('1-8 motifs of width 2-20 (dirichlet PWMs of varying sharpness, float32 
         'and sequences with the consensus (or its reverse complement) planted at every offset 0..L-w, lengths '
         '1-120 incl. shorter than / equal to the motif, N and other unknown characters, lower case (FASTA), '
         'thresholds 1e-1..1e-6, bins 0.05-1, eps 1e-6-1e-2, FASTA file vs one-hot tensor, dim 0/1, '
-        'return_counts, reverse_complement on/off, numba threads 1-16; non-trivial = a call with at least one '
+        'return_counts, reverse_complement on/off, numba threads 1-16; all calls of a run go through one long-lived '
+        'worker process (a dead interpreter = failing input); multi-call cases (+pre buckets): a fresh motif set is first '
+        'scanned with another eps / bin_size / threshold / reverse_complement / mode / other sequences, then the checked '
+        'call; n-run cases: runs of N at least as long as the motif with motif/threshold/bin combinations whose '
+        'threshold bin is exactly 0 (score 0.0 vs threshold 0.0 is decided exactly: no hit); non-trivial = a call with at least one '
         'hit window and one non-hit window; buckets ending in amb1 contain a window within 1e-7 of its score '
         'threshold (membership there is excluded from the comparison inside Coq)')
 TRUSTED = ['C12: the harness recomputes log2(pwm+eps)-log2(0.25) with numpy in the dtype fimo uses and converts each '
